@@ -279,6 +279,34 @@ func c14(c *Ctx) {
 			continue
 		}
 
+		// (1b) the parsed keytab owns its entries: what the caller does with the buffer it handed to Unmarshal
+		// afterwards (reuse for the next file, zeroing) changes nothing in the entries parsed from it
+		if n > 0 {
+			buf := append([]byte(nil), file...)
+			if _, ktA, errA := obsKtUnmarshal(buf); errA == nil && ktA != nil {
+				snap := string(projKeytab(ktA, v))
+				for i := range buf {
+					buf[i] ^= 0xA5
+				}
+				other := refWriteKeytab(v, []ktItem{{E: genKtEntry(c)}})
+				copy(buf, other)
+				if len(other) <= len(buf) {
+					obsKtUnmarshal(buf[:len(other)])
+				}
+				c.Check(string(projKeytab(ktA, v)) == snap, "entries parsed from a buffer do not change when the caller reuses the buffer", "parse-aliases-input", "entries changed after the input buffer was overwritten", map[string]interface{}{"file": hex.EncodeToString(file), "version": v})
+				// and the bytes Marshal returns are the caller's: scribbling on them leaves the keytab as it was
+				var mbA []byte
+				var merrA error
+				if pA, _ := guard(func() { mbA, merrA = ktA.Marshal() }); !pA && merrA == nil {
+					for i := range mbA {
+						mbA[i] ^= 0x5A
+					}
+					c.Check(string(projKeytab(ktA, v)) == snap, "entries do not change when the caller modifies the bytes Marshal returned", "marshal-aliases-entries", "", map[string]interface{}{"version": v})
+				}
+				c.Count("buffer-independence")
+			}
+		}
+
 		// (2) Marshal of the parsed keytab (optionally with mutated fields), and round trip
 		if c.R.Intn(2) == 0 {
 			for i := range kt.Entries {
